@@ -121,6 +121,12 @@ def oracle_adjust(mn, mx, mp, c, size):
 def oracle_e2e(case, out, mn, mx, mp):
     """C14 on what a real _submit run issued (out = the plan string recorded by end_to_end)."""
     size, chunk, thr, kind = case['size'], case['chunk'], case['thr'], case['kind']
+    if out.startswith(('crash:', 'EXC:')):
+        return f'{kind} of {size} bytes (chunk {chunk}, threshold {thr}): the front-end raised {out.split(":", 1)[1]} on a legal plan input'
+    if '!' in out:
+        return f'{kind} of {size} bytes (chunk {chunk}, threshold {thr}): {out.split("!", 1)[1]} differ from the object / the planned offsets'
+    if out.startswith(('ranged:', 'partnumbers:')):
+        return f'{kind} of {size} bytes (chunk {chunk}, threshold {thr}): unexpected plan {out}'
     single = (out == '0')
     if single != (size < thr):
         return (f'{kind} of {size} bytes with threshold {thr}, chunk {chunk}: sent as '
@@ -128,7 +134,11 @@ def oracle_e2e(case, out, mn, mx, mp):
     if single or out in ('', 'none'):
         return None
     items = out.split(',')
-    if kind == 'download' or kind == 'copy':
+    if kind in ('legacy-upload', 'legacy-download', 'pool-download'):
+        kind_fmt = 'download'        # these record their plan in Range notation
+    else:
+        kind_fmt = kind
+    if kind_fmt == 'download' or kind == 'copy':
         prev = -1
         for k, it in enumerate(items):
             rng = it.split('/')[-1] if kind == 'copy' else it
@@ -142,6 +152,11 @@ def oracle_e2e(case, out, mn, mx, mp):
             prev = e_
         if prev != size - 1:
             return f'{kind} of {size} bytes: ranges end at byte {prev}'
+        if kind == 'copy' and mn <= chunk <= mx and -(-size // chunk) <= mp and \
+                any(unhx(it.split('/')[-1].split(':')[0]) != k * chunk for k, it in enumerate(items)):
+            return (f'copy of {size} bytes: the configured part size {chunk} needs no adjustment (limits [{mn},{mx}], at most {mp} '
+                    f'parts) but the parts start at {[unhx(it.split("/")[-1].split(":")[0]) for it in items]}'
+                    + (f' (after a copy of {case["after_copy_of"]} bytes on the same manager)' if case.get('after_copy_of') else ''))
         if kind == 'copy':
             lens = [min(unhx(it.split('/')[-1].split(':')[1]) if it.split('/')[-1].split(':')[1] != '-' else size - 1, size - 1)
                     - unhx(it.split('/')[-1].split(':')[0]) + 1 for it in items]
@@ -517,10 +532,13 @@ def end_to_end(ctx):
                 # upload from a path
                 path = os.path.join(tmpdir, 'src')
                 open(path, 'wb').write(data)
-                for src_kind in ('path', 'seekable', 'seekable@3', 'nonseekable'):
+                for src_kind in ('path', 'seekable', 'seekable@3', 'seekable-short', 'nonseekable'):
                     c = FakeS3()
                     src = path if src_kind == 'path' else (
                         io.BytesIO(data) if src_kind == 'seekable' else NonSeekableReader(data))
+                    if src_kind == 'seekable-short':
+                        from harness.fakes3 import ShortReadBytesIO
+                        src = ShortReadBytesIO(data, cap=1 + size % 3)     # read(n) returns at most 1-3 bytes
                     if src_kind == 'seekable@3':
                         # a seekable stream positioned past byte 0: its size is what is left
                         src = io.BytesIO(b'XYZ' + data)
@@ -568,6 +586,23 @@ def end_to_end(ctx):
                     ctx.report(f'e2e-bytes:copy:{size}:{chunk}:{thr}',
                                f'copy of {size} bytes (chunk {chunk}, threshold {thr}) stored different bytes',
                                {'kind': 'input', 'component': 'e2e-copy', 'case': cases[-1]})
+                # the configured chunk size is per manager, not per transfer: a copy that needed a larger
+                # part size must not change the plan of the next copy on the same manager
+                if size >= thr and (size + chunk - 1) // chunk > mp:
+                    c = FakeS3()
+                    c.objects[('sb', 'big')] = data
+                    small = data[:min(size, max(thr, 2 * chunk))]
+                    c.objects[('sb', 'small')] = small
+                    with TransferManager(c, cfg, executor_cls=NonThreadedExecutor) as m:
+                        m.copy({'Bucket': 'sb', 'Key': 'big'}, 'b', 'k1').result()
+                        n0 = len(c.calls('UploadPartCopy'))
+                        m.copy({'Bucket': 'sb', 'Key': 'small'}, 'b', 'k2').result()
+                    second = c.calls('UploadPartCopy')[n0:]
+                    if second:
+                        got = ','.join(f"{hx(r['kwargs']['PartNumber'])}/{parse_range_header(r['kwargs']['CopySourceRange'])}" for r in second)
+                        lines.append(f'cpw {hx(mn)} {hx(mx)} {hx(mp)} {hx(len(small))} {hx(chunk)}')
+                        outs.append(got)
+                        cases.append({'kind': 'copy', 'size': len(small), 'chunk': chunk, 'thr': thr, 'after_copy_of': size})
                 # the other front-ends that plan parts: legacy S3Transfer and the process-pool submitter
                 for fe, got in other_front_ends(size, chunk, thr, data, tmpdir):
                     lines.append(f'dl {hx(size)} {hx(chunk)}' if size >= thr else f'mp {hx(size)} {hx(thr)}')
